@@ -473,6 +473,8 @@ def gen_scatter(ctx, n):
     return out
 
 
+LAYOUTS = ["F", "T", "strided", "neg", "C"]      # Fortran order, transposed view, strided view, negative strides, C order
+
 PROJS = {
     "laea": {"proj": "laea", "lat_0": 60, "lon_0": 10, "ellps": "WGS84"},
     "stere": {"proj": "stere", "lat_0": 90, "lon_0": 0, "lat_ts": 60, "ellps": "WGS84"},
@@ -507,7 +509,7 @@ def gen_resample(ctx, n):
     templates = ["same_proj", "same_proj_nice", "coincident", "cross_proj", "cross_proj", "lonlat_source", "swath_rot", "swath_shear",
                  "swath_jitter", "swath_jitter", "swath_bend", "swath_invalid", "few_neighbours", "small_radius", "reduce_data",
                  "lonlat_target", "invalid_target", "degree_fan", "integer_data"]
-    i = 0
+    i = nlay = 0
     while len(out) < n:
         tpl = templates[i % len(templates)] if i < len(templates) else r.choice(templates)
         i += 1
@@ -608,12 +610,16 @@ def gen_resample(ctx, n):
                 src["jitter"] = 0.2
                 src["invalid"] = [[r.randrange(sh), r.randrange(sw)] for _ in range(r.randint(1, 12))]
             radius = 4 * step
+        if src["kind"] in ("swath", "fan"):
+            # memory layout of the source lon/lat arrays and of the data: cycle through the non-C layouts first
+            src["layout"] = LAYOUTS[nlay % len(LAYOUTS)]
+            nlay += 1
         cxr, cyr, hwr = REGIONS[tgt["proj"]["proj"]]
         if tpl == "degree_fan":
             e = tgt["extent"]
             cxr, cyr, hwr = (e[0] + e[2]) / 2, (e[1] + e[3]) / 2, (e[2] - e[0]) / 2
         scale = 1.0 / hwr
-        extra = {"int_dtypes": ["uint8", "uint16", "int16"], "int_ramp": [250, 2, 1]} if tpl == "integer_data" else {}
+        extra = {"int_dtypes": ["uint8", "uint16", "int16", "float32"], "int_ramp": [250, 2, 1]} if tpl == "integer_data" else {}
         th, tw = tgt["shape"]
         out.append({**extra, "template": tpl, "source": src, "target": tgt, "radius": radius, "neighbours": nb, "reduce_data": reduce_data,
                     "data_seed": r.randrange(10 ** 6), "centre": [cxr, cyr],
@@ -638,7 +644,8 @@ def run(ctx):
                 "rotated / sheared / jittered / bent swaths in 8 orientations, invalid lons, few neighbours, small radius, reduce_data, integer "
                 "imagery) x constant / affine / random fields, 2-D and 3-D, numpy class, legacy functions and xarray class with several data "
                 "chunkings and PYTROLL_CHUNK_SIZE in {default, 4, 7, 4096}; a repeated call on the same resampler object; the lazy xarray "
-                "results of several equally named / unnamed inputs evaluated in one dask.compute vs. alone. "
+                "results of several equally named / unnamed inputs evaluated in one dask.compute vs. alone; swath lon/lat and data arrays "
+                "in Fortran / transposed-view / strided / negative-stride / C memory layouts vs. C-contiguous copies. "
                 "A case is NON-TRIVIAL when it reaches the interesting branch: a non-NaN (t, s) for kernels, a non-NaN result for scalar "
                 "kernels, at least one found corner, a target with an invalid pixel for scattering, at least one produced pixel for a "
                 "resampler case; every look-up / clip / xarray case counts. DISTINCT = distinct canonical inputs (float.hex of all arguments, "
@@ -1020,7 +1027,7 @@ def check_resamplers(ctx, cases, obs, texts):
                 lo, hi = min(corners), max(corners)
                 exact = float(bilerp([Fr(z) for z in corners], Fr(s), Fr(t)))
                 if not (lo - 1e-9 <= v <= hi + 1e-9) or abs(v - exact) > 1e-9 * max(1.0, abs(exact)) or abs(v - ref) > 1e-9 * max(1.0, abs(ref)):
-                    ctx.add_failure("C06.range.integer_dtype", "%s data: pixel %d gets %r; its corner pixels hold %s (s=%r, t=%r): the convex combination is "
+                    ctx.add_failure("C06.range.float32_dtype" if dt == "float32" else "C06.range.integer_dtype", "%s data: pixel %d gets %r; its corner pixels hold %s (s=%r, t=%r): the convex combination is "
                                     "%r, the float64 copy of the same data gives %r" % (dt, i, v, corners, s, t, exact, ref), dict(rp, pixel=i))
             if sur:
                 want = c0 + cx * (x - xc) + cy * (y - yc)
@@ -1046,6 +1053,20 @@ def check_resamplers(ctx, cases, obs, texts):
                 ctx.add_failure("C06.3d_vs_2d", "band %d of the 3-D result differs from the 2-D result of the %s field" % (b, k), rp)
         if not all(same(a, bb) for a, bb in zip(res["resample_api"], res["random"])):
             ctx.add_failure("C06.resample_api", "NumpyBilinearResampler.resample differs from get_bil_info + get_sample_from_bil_info", rp)
+        # memory layout independence: the same logical lon/lat and data arrays as C-contiguous copies give the same result
+        lay_ = c["source"].get("layout", "C")
+        ctx.count("layout:" + lay_)
+        if "np_c" in o:
+            for k_ in ("t", "s", "const", "affine", "random"):
+                got_ = o[k_] if k_ in ("t", "s") else res[k_]
+                bad = [i for i, (a, bb) in enumerate(zip(got_, o["np_c"][k_])) if not same(a, bb)]
+                if bad:
+                    ctx.add_failure("C06.layout_independence", "%s: source lon/lat and data passed as %s arrays: %s differs from the result for C-contiguous "
+                                    "copies of the same arrays at %d of %d entries, e.g. [%d]: %r vs %r" % (
+                                        tpl, {"F": "Fortran-ordered", "T": "transposed-view", "strided": "strided-view", "neg": "negative-stride"}[lay_],
+                                        "bilinear_" + k_ if k_ in ("t", "s") else "the %s field" % k_, len(bad), len(got_), bad[0], got_[bad[0]],
+                                        o["np_c"][k_][bad[0]]), rp)
+                    break
         # histories on one object
         for k_, ok_ in o.get("history", {}).items():
             ctx.count("history:" + k_)
